@@ -414,3 +414,298 @@ def judge_export(job, lines, crashed, stderr=''):
                 if d is None or text[d[0]:d[1]] != wt:
                     out.append("to_dot(): vertex %d holds %r, printed %r" % (vid, wt, None if d is None else text[d[0]:d[1]]))
     return out, {}
+
+
+# ====================================================================== C20: inspect / Debug / v_print
+L1 = lambda t: t.encode('utf-8').decode('latin-1')
+ARROW, ELL, LB, RB, DELTA = L1('➞'), L1('…'), L1('⟦'), L1('⟧'), L1('Δ')
+# characters that delimit the three text forms: a label must not contain them (or the text would be ambiguous)
+DELIMS = (0x20, 0x2C, 0x2E, 0x0A, 0x09, 0x3BD, 0x279E, 0x2026, 0x27E6, 0x27E7, 0x394)
+
+STRUCTS = {
+    'chain': [[1], [2], []],
+    'cycle-shared': [[1, 2], [2], [0]],
+    'two-cycle': [[1], [0], []],
+    'fan-in': [[], [0, 2], [1]],
+    'double-edge': [[1, 1], [], [0]],
+    'no-edges': [[], [], []],
+}
+
+
+def _setup20(env, N, cap, struct, shapes, lab):
+    edges = STRUCTS[struct]
+    fx = {}
+    for i, sh in enumerate(shapes):
+        d = SHAPES[sh]
+        fx['tag%d' % i] = d['tag']
+        fx['pers%d' % i] = d['pers']
+        fx['ne%d' % i] = len(edges[i])
+        for j, t in enumerate(edges[i]):
+            fx['t%d_%d' % (i, j)] = t
+    for b in range(2, NSLOT):
+        fx['cnt%d' % b] = 0
+        fx['ctr%d' % b] = 0
+    c = Ctx(env, N, cap, fixed=fx)
+    w, vm, y = c.w, c.vm, c.y
+    vm.opts['max_cands'] = 300
+    vm.opts['merge_calls'] = tuple(vm.opts.get('merge_calls') or ()) + ('8UpperHex3fmt',)
+    st = c.pre.fork()
+    for i, sh in enumerate(shapes):
+        d = SHAPES[sh]
+        st.assume(y.data[i].sel == d['dsel'])
+        if d['dsel'] == 0:
+            st.assume(y.data[i].ilen == d['ilen'])
+        for j in range(N):
+            L = y.ekey[i][j]
+            if lab == 'alpha':
+                st.assume(L.kind == G.ALPHA)
+                st.assume(z3.ULT(L.n, 1 << 10))
+            elif lab.startswith('greek'):
+                k = int(lab[5])
+                lo, hi = {1: (0x21, 0x7F), 2: (0x80, 0x7FF), 3: (0x800, 0xFFFF), 4: (0x10000, 0x10FFFF)}[k]
+                st.assume(L.kind == G.GREEK)
+                st.assume(z3.And(z3.UGE(L.c, lo), z3.ULE(L.c, hi)))
+                st.assume(z3.And(*[L.c != x for x in DELIMS + (0x3B1,)]))
+            else:
+                st.assume(L.kind == G.STR)
+                for q, ch in enumerate(L.chars):
+                    if q < 3:
+                        st.assume(z3.And(z3.UGE(ch, 0x30), z3.ULT(ch, 0x7B)))
+                    else:
+                        st.assume(ch == 0x20)
+    c.pre = st
+    return c, st, edges
+
+
+def _txt(cells, st, vm):
+    mdl = vm.get_model(st)
+    if mdl is None:
+        return None, None
+    conc = [x if type(x) is int else (0 if x is None else mdl.eval(cell_term(x), model_completion=True).as_long()) for x in cells]
+    return conc, bytes(conc).decode('latin-1')
+
+
+def _same_label(c, a, b, lab):
+    y = c.y
+    la = y.ekey[a[0]][a[1]]; lb = y.ekey[b[0]][b[1]]
+    return la.eq(lb)
+
+
+def _multiset_eq(c, cells, found, exp, lab):
+    """found: [(label span, target int)] printed; exp: [((vertex, pair index), target)]: same multiset"""
+    if len(found) != len(exp):
+        return z3.BoolVal(False)
+    y = c.y
+    cs = []
+    one = z3.BitVecVal(1, 8); zero = z3.BitVecVal(0, 8)
+    for (vi, j), t in exp:
+        hits = z3.BitVecVal(0, 8)
+        for (sp, ft) in found:
+            if ft != t:
+                continue
+            hits = hits + z3.If(_text_eq(cells, sp[0], sp[1], _label_text(y.ekey[vi][j], lab)), one, zero)
+        same = z3.BitVecVal(0, 8)
+        for (vk, jk), tk in exp:
+            if tk != t:
+                continue
+            same = same + (one if (vk, jk) == (vi, j) else z3.If(_same_label(c, (vi, j), (vk, jk), lab), one, zero))
+        cs.append(hits == same)
+    return z3.And(*cs)
+
+
+def ob_text20(env, N, cap, struct, shapes, lab, which, start=0):
+    c, st, edges = _setup20(env, N, cap, struct, shapes, lab)
+    w, y, vm = c.w, c.y, c.vm
+    out = w.scratch(st, 24, 'out.string')
+    call = {'op': which, 'v': start} if which != 'debug' else {'op': 'debug'}
+    present = [i for i, sh in enumerate(shapes) if SHAPES[sh]['tag'] != 0]
+    n = 0
+    if which == 'inspect':
+        outs = vm.run(st, w.pfx + 'inspect', [w.g, start, out])
+    elif which == 'v_print':
+        outs = vm.run(st, w.pfx + 'v_print', [w.g, start, out])
+    else:
+        outs = vm.run(st, w.pfx + 'debug', [w.g, out])
+    for o in outs:
+        n += 1
+        if o.kind != 'ret':
+            c.terminal_violation(o, call, ('C20',), 'returns')
+            continue
+        s1 = o.st
+        if which != 'debug':
+            ok = o.value
+            okb = ok if isinstance(ok, z3.BoolRef) else ((to_bv(ok, 8) & 1) == 1)
+            if vm.feasible(s1, z3.Not(okb)):
+                c.report(vm.get_model(s1, z3.Not(okb)), ['text:ok'], call, lambda nme: ('C20',))
+                continue
+        pp = s1.mem.alloc(8, 8, 'heap', name='scratch.pp').base
+        oo = vm.run(s1, '@string_view', [out, pp])
+        if len(oo) != 1 or oo[0].kind != 'ret':
+            raise Inconclusive("string_view: %r" % (oo,))
+        s2 = oo[0].st
+        ptr = cells_to_val(s2.mem.read_cells(pp, 8))
+        ln = oo[0].value
+        if not isinstance(ln, int):
+            ln = vm.concretize(s2, ln)
+        cells = vm.load_bytes(s2, ptr, ln) if ln else []
+        conc, sk = _txt(cells, s2, vm)
+        if sk is None:
+            continue
+        payload = set()
+        cl = []
+        if which == 'inspect':
+            # reachable set and its edges
+            reach = []
+            todo = [start]
+            while todo:
+                v = todo.pop()
+                if v in reach:
+                    continue
+                reach.append(v)
+                todo += edges[v]
+            exp = [((v, j), t) for v in reach for j, t in enumerate(edges[v])]
+            found = []
+            lines = sk.split('\n')
+            pos = 0
+            head_ok = bool(lines) and lines[0] == L1('ν%d' % start)
+            for li, line in enumerate(lines):
+                if li > 0:
+                    m = re.match(r'^( *)\.(.*) ' + ARROW + ' ' + NU + r'(\d+)(' + ELL + r')?$', line)
+                    if not m:
+                        head_ok = False
+                    else:
+                        sp = (pos + m.start(2), pos + m.end(2))
+                        payload.update(range(*sp))
+                        found.append((sp, int(m.group(3))))
+                pos += len(line) + 1
+            cl.append(('text:shape', z3.BoolVal(head_ok)))
+            cl.append(('text:edges-exactly-once', _multiset_eq(c, cells, found, exp, lab)))
+        elif which == 'v_print':
+            m = re.match(r'^' + NU + r'(\d+)' + LB + '(' + DELTA + r', )?(.*)' + RB + '$', sk, re.S)
+            if not m or int(m.group(1)) != start:
+                cl.append(('text:shape', z3.BoolVal(False)))
+            else:
+                has = SHAPES[shapes[start]]['pers'] != EMPTY
+                cl.append(('text:data-marker', z3.BoolVal(bool(m.group(2)) == has)))
+                body = m.group(3)
+                off = m.start(3)
+                found = []
+                if body:
+                    p0 = 0
+                    for part in body.split(', '):
+                        sp = (off + p0, off + p0 + len(part))
+                        payload.update(range(*sp))
+                        found.append((sp, 0))
+                        p0 += len(part) + 2
+                exp = [((start, j), 0) for j in range(len(edges[start]))]
+                cl.append(('text:labels', _multiset_eq(c, cells, found, exp, lab)))
+        else:
+            # Debug: "nu<v> -> [[...]]" per present vertex, then "b<k>: {...}" lines
+            heads = list(re.finditer(NU + r'(\d+) -> ' + LB, sk))
+            ids = [int(h.group(1)) for h in heads]
+            cl.append(('text:vertices', z3.BoolVal(ids == present)))
+            for hi, h in enumerate(heads):
+                vid = int(h.group(1))
+                end = sk.find(RB, h.end())
+                body = sk[h.end():end]
+                off = h.end()
+                found = []
+                rest = body
+                roff = off
+                for m in re.finditer(r'\n\t(.*?) ' + ARROW + ' ' + NU + r'(\d+)(, |$)', body):
+                    sp = (off + m.start(1), off + m.end(1))
+                    payload.update(range(*sp))
+                    found.append((sp, int(m.group(2))))
+                    rest = body[m.end():]
+                    roff = off + m.end()
+                if vid in present:
+                    exp = [((vid, j), t) for j, t in enumerate(edges[vid])]
+                    cl.append(('text:edges%d' % vid, _multiset_eq(c, cells, found, exp, lab)))
+                    if SHAPES[shapes[vid]]['pers'] == EMPTY:
+                        cl.append(('text:data%d' % vid, z3.BoolVal(rest == '')))
+                    else:
+                        payload.update(range(roff, roff + len(rest)))
+                        want = _hex_text(_data_bytes(c, vid, shapes[vid]), 0x2D)
+                        cl.append(('text:data%d' % vid, _piece_eq(cells, roff, roff + len(rest), want)))
+        fixed = [cell_term(x) == conc[q] for q, x in enumerate(cells) if q not in payload and type(x) is not int and x is not None]
+        cl.append(('text:skeleton', z3.And(*fixed) if fixed else z3.BoolVal(True)))
+        fr, nd = c.frame(s2, lambda key: False)
+        cl += [('text-pure:' + n_, f) for n_, f in fr]
+        c.refute(s2, cl, call, lambda nme: ('C20',))
+    env.cover('text produced', n >= 1)
+    env.sample({'op': which, 'N': N, 'cap': cap, 'structure': struct, 'edges (targets per vertex)': edges, 'vertex shapes': list(shapes), 'labels': lab, 'start': start, 'paths': n})
+    env.account(w)
+
+
+def judge_text20(job, lines, crashed, stderr=''):
+    out = []
+    if len(lines) < 2:
+        m = [l for l in stderr.splitlines() if 'panicked' in l]
+        return ["the call did not return: %s" % ((m[-1] if m else stderr[-200:]).strip())], {}
+    snap = lines[0]['snap']
+    c0 = job['calls'][0]
+    op = c0['op']
+    ret = lines[1]['ret']
+    if 'text' not in ret:
+        return ["%s returned an error: %s" % (op, ret.get('error'))], {}
+    text = L1(ret['text'])
+    vs = snap['vertices']
+    present = [i for i, x in enumerate(vs) if x is not None and x['branch'] != 0]
+    edges_of = lambda v: sorted((L1(_label_str(l)), to) for l, to in vs[v]['edges'])
+    if op == 'inspect':
+        start = c0['v']
+        reach, todo = [], [start]
+        while todo:
+            v = todo.pop()
+            if v in reach or v >= len(vs):
+                continue
+            reach.append(v)
+            todo += [to for l, to in vs[v]['edges']]
+        want = sorted(e for v in reach for e in edges_of(v))
+        ls = text.split('\n')
+        got = []
+        ok = bool(ls) and ls[0] == L1('ν%d' % start)
+        for line in ls[1:]:
+            m = re.match(r'^( *)\.(.*) ' + ARROW + ' ' + NU + r'(\d+)(' + ELL + r')?$', line)
+            if not m:
+                ok = False
+            else:
+                got.append((m.group(2), int(m.group(3))))
+        if not ok:
+            out.append("inspect(%d): unexpected line form in %r" % (start, ret['text'][:200]))
+        elif sorted(got) != want:
+            out.append("inspect(%d) lists the edges %r, the vertices reachable from %d have %r" % (start, sorted(got), start, want))
+    elif op == 'v_print':
+        v = c0['v']
+        m = re.match(r'^' + NU + r'(\d+)' + LB + '(' + DELTA + r', )?(.*)' + RB + '$', text, re.S)
+        if not m or int(m.group(1)) != v:
+            out.append("v_print(%d): unexpected form %r" % (v, ret['text'][:200]))
+        else:
+            if bool(m.group(2)) != (vs[v]['persistence'] != 0):
+                out.append("v_print(%d): data marker %s although persistence is %d" % (v, 'shown' if m.group(2) else 'missing', vs[v]['persistence']))
+            got = sorted(m.group(3).split(', ')) if m.group(3) else []
+            want = sorted(a for a, to in edges_of(v))
+            if got != want:
+                out.append("v_print(%d) lists the labels %r, the vertex has %r" % (v, got, want))
+    else:
+        heads = list(re.finditer(NU + r'(\d+) -> ' + LB, text))
+        ids = [int(h.group(1)) for h in heads]
+        if ids != present:
+            out.append("Debug lists the vertices %r, the present vertices are %r" % (ids, present))
+        for h in heads:
+            vid = int(h.group(1))
+            if vid not in present:
+                continue
+            end = text.find(RB, h.end())
+            body = text[h.end():end]
+            got = []
+            rest = body
+            for m in re.finditer(r'\n\t(.*?) ' + ARROW + ' ' + NU + r'(\d+)(, |$)', body):
+                got.append((m.group(1), int(m.group(2))))
+                rest = body[m.end():]
+            if sorted(got) != edges_of(vid):
+                out.append("Debug: vertex %d has the edges %r, printed %r" % (vid, edges_of(vid), sorted(got)))
+            wt = '' if vs[vid]['persistence'] == 0 else ('-'.join('%02X' % b for b in vs[vid]['data']) if vs[vid]['data'] else '--')
+            if rest != wt:
+                out.append("Debug: vertex %d: data text %r, expected %r" % (vid, rest, wt))
+    return out, {}
